@@ -105,23 +105,36 @@ example : normKvs [(T "k", .list [.leaf (T "x"), .node [(T "a", .leaf (T "b"))]]
     the standard ones -/
 theorem fault_roundtrip_xml (f : FaultV) (hm : ∀ m ∈ f.members, m.1 ≠ T "detail") :
     (encodeFault facts09 .xml f).bind (decodeFault .xml) =
-      some { f with detail := normTop11 f.detail, lang := T "en", members := [] } := by
-  simp [encodeFault, decodeFault, xmlToFault11_faultToXml11 facts09 (by decide) (by decide) f hm]
+      some { f with str := xmlText f.str, actor := xmlText f.actor, detail := normTop11 f.detail, lang := T "en",
+                    members := [] } := by
+  have hx : facts09.xmlSanitise = true := by decide
+  simp [encodeFault, decodeFault, xmlToFault11_faultToXml11 facts09 (by decide) (by decide) f hm, xmlTextF, hx]
+
+/-- the message / actor the XML protocols write is always text XML can carry (so the fault can always be sent), and it
+    is the raised text itself whenever that text is XML-representable; every other character (controls, NUL, U+FFFE,
+    U+FFFF; lone surrogates are outside Lean's `Char` and covered by the measured fact + T3) becomes U+FFFD -/
+theorem fault_text_always_carriable (t : Text) :
+    (xmlText t).all isXmlChar = true ∧ (t.all isXmlChar = true → xmlText t = t) :=
+  ⟨xmlText_valid t, xmlText_of_valid t⟩
 
 /-- SOAP 1.1: any code (the `faultcode` QName is read by its local part), any message, any detail -/
 theorem fault_roundtrip_soap11 (f : FaultV) (hm : ∀ m ∈ f.members, m.1 ≠ T "detail") :
     (encodeFault facts09 .soap11 f).bind (decodeFault .soap11) =
-      some { f with detail := normTop11 f.detail, lang := T "en", members := [] } := by
-  simp [encodeFault, decodeFault, unwrapEnvelope_envelope, xmlToFault11_faultToXml11 facts09 (by decide) (by decide) f hm]
+      some { f with str := xmlText f.str, actor := xmlText f.actor, detail := normTop11 f.detail, lang := T "en",
+                    members := [] } := by
+  have hx : facts09.xmlSanitise = true := by decide
+  simp [encodeFault, decodeFault, unwrapEnvelope_envelope, xmlToFault11_faultToXml11 facts09 (by decide) (by decide) f hm,
+    xmlTextF, hx]
 
 /-- SOAP 1.2: first segment Client or Server, arbitrary dotted sub-codes, any message, any detail, the language -/
 theorem fault_roundtrip_soap12 (f : FaultV) (first : Text) (rest : List Text)
     (hs : splitOn '.' f.code = first :: rest) (hf : first = T "Client" ∨ first = T "Server")
     (hm : ∀ m ∈ f.members, m.1 ≠ tDetail12) :
     (encodeFault facts09 .soap12 f).bind (decodeFault .soap12) =
-      some { f with detail := f.detail.map normKvs, members := [] } := by
+      some { f with str := xmlText f.str, actor := xmlText f.actor, detail := f.detail.map normKvs, members := [] } := by
+  have hxs : facts09.xmlSanitise = true := by decide
   obtain ⟨x, hx, hd⟩ := xmlToFault12_faultToXml12 facts09 (by decide) (by decide) (by decide) f first rest hs hf hm
-  simp [encodeFault, decodeFault, hx, unwrapEnvelope_envelope, hd]
+  simp [encodeFault, decodeFault, hx, unwrapEnvelope_envelope, hd, xmlTextF, hxs]
 
 /-- JSON / YAML / MessagePack documents, dict and list form: everything, exactly -/
 theorem fault_roundtrip_dict (asList : Bool) (f : FaultV) :
@@ -200,7 +213,8 @@ theorem fault_arrives (p : Proto) (c : Cls) (f g : FaultV)
 
 example (c : Cls) (f : FaultV) (hm : f.members = [(qn (T "tns") (T "extra"), T "x")]) :
     ∃ w, wsgi facts09 .soap11 none (.plain (.raises (.fault c f))) = .response 500 w ∧
-      decodeFault .soap11 w = some { f with detail := normTop11 f.detail, lang := T "en", members := [] } := by
+      decodeFault .soap11 w = some { f with str := xmlText f.str, actor := xmlText f.actor, detail := normTop11 f.detail,
+                                            lang := T "en", members := [] } := by
   have := fault_arrives .soap11 c f _ (fault_roundtrip_soap11 f (by rw [hm]; decide))
   rwa [status_soap_500 .soap11 rfl] at this
 
@@ -361,12 +375,14 @@ theorem internal_error_decodes (p : Proto) :
 
 /-- SOAP 1.1 client: message and detail as sent; the code is the `faultcode` QName whose local part is the raised
     code (`hne`: a `Fault` never has an empty message — its constructor puts the type name there) -/
-theorem client11_sees (f : FaultV) (hne : f.str ≠ []) (hm : ∀ m ∈ f.members, m.1 ≠ T "detail") :
+theorem client11_sees (f : FaultV) (hne : f.str ≠ []) (hm : ∀ m ∈ f.members, m.1 ≠ T "detail")
+    (hv : f.str.all isXmlChar = true) :
     ∃ w cf, encodeFault facts09 .soap11 f = some w ∧ client11 w = some cf ∧
       localPart cf.code = f.code ∧ cf.str = f.str ∧ cf.detail = normTop11 f.detail := by
   refine ⟨_, _, rfl, client11_encode facts09 (by decide) f hm, ?_, ?_, rfl⟩
   · exact localPart_prefixed _ (by decide) _
-  · simp [ctorString, hne]
+  · have hx : facts09.xmlSanitise = true := by decide
+    simp [ctorString, hne, xmlTextF, hx, xmlText_of_valid f.str hv]
 
 /-- SOAP 1.2 client: the code read in spyne's vocabulary (Sender = Client, Receiver = Server) is the
     raised code, the detail is as sent, the message is as sent when it has no blank edges.
@@ -374,13 +390,15 @@ theorem client11_sees (f : FaultV) (hne : f.str ≠ []) (hm : ∀ m ∈ f.member
     `client12-reason-stripped`): `cf.str = f.str` without the hypothesis `hstr`. -/
 theorem client12_sees_partial (f : FaultV) (first : Text) (rest : List Text)
     (hs : splitOn '.' f.code = first :: rest) (hf : first = T "Client" ∨ first = T "Server")
-    (hne : f.str ≠ []) (hstr : strip f.str = f.str) (hm : ∀ m ∈ f.members, m.1 ≠ tDetail12) :
+    (hne : f.str ≠ []) (hstr : strip f.str = f.str) (hm : ∀ m ∈ f.members, m.1 ≠ tDetail12)
+    (hv : f.str.all isXmlChar = true) :
     ∃ w cf, encodeFault facts09 .soap12 f = some w ∧ client12 facts09 w = some cf ∧
       code12ToSpyne cf.code = f.code ∧ cf.str = f.str ∧ cf.detail = f.detail.map normKvs := by
   obtain ⟨x, hx, hc⟩ := client12_encode facts09 (by decide) (by decide) (by decide) f first rest hs hf hm
   refine ⟨.xml (envelope ns12 [x]), _, by simp [encodeFault, hx], hc, ?_, ?_, rfl⟩
   · exact code12ToSpyne_client _ (by decide) f.code first rest hs hf
-  · simp [hstr, ctorString, hne]
+  · have hx : facts09.xmlSanitise = true := by decide
+    simp [hstr, ctorString, hne, xmlTextF, hx, xmlText_of_valid f.str hv]
 
 example : strip (T "msg é") = T "msg é" := by decide
 example : strip (T " sp ") = T "sp" := by decide
